@@ -6,7 +6,7 @@ PROPERTY = "C01"
 
 # templates outside the reference semantics' current subset (dynamic types, external calls, create, immutables, the lock):
 # they are covered by the relational contracts (C02) and by the property-specific contracts (C05, C06, C09, C12, C13)
-OUTSIDE = ("storage.dynarray", "storage.bytes", "slice", "send", "selfcall.order", "rawrevert", "rawcall.", "lock.", "internal.bytes", "extract32", "extcall.bytes",
+OUTSIDE = ("saverestore.", "storage.dynarray", "storage.bytes", "slice", "send", "selfcall.order", "rawrevert", "rawcall.", "lock.", "internal.bytes", "extract32", "extcall.bytes",
            "event.bytes", "echo.string", "echo.dynarray", "echo.bytes", "dynarray.", "create.", "concat.", "bytes.", "abi_encode.", "abi_decode.", "pow.")
 # inside the subset but with non-linear obligations that need minutes (thorough tier only; C03 decides the arithmetic kernels)
 HEAVY = (".mul", "decimal.div", "decimal.floor", "decimal.ceil", "mulmod", "internal.call", "isqrt-free")
